@@ -5,7 +5,7 @@ import PsModel.Spec.C15
 
 `C15 (<L|N|Lp|Np> (cfg <state> <time> <event> <mqtt> <timeout>) (tb st ev evl mq mql tasks) v call (hist (t item) ...))`
 * state = `none | (st <fn> checkNow parseOK [hold|none holdFalse|none])`     event = `none | (ev <fn>|nofilt parseOK)`     mqtt = `none | (mq parseOK)`
-* fn    = `(gt n) | (ge n) | (eq n) | (ne n) | (const b) | (raiseat n <fn>)`  (raises when the argument is `n`)
+* fn    = `(gt n) | (ge n) | (eq n) | (ne n) | (const b) | (raiseat n <fn>) | (or <fn> <fn>)`  (raises when the argument is `n`)
 * time  = `none | (abs t) | (rel d)`        timeout = `none | n`        item = `(s v) | (e d) | (c)`
 `L`/`N` run the machines with `Flags.current`, `Lp`/`Np` with `Flags.preFix`.  The tables are given / printed as counts; the call's own queue is number 7, pre-existing ones 100, 101, ….
 -/
@@ -15,6 +15,7 @@ open PsModel
 inductive Fn where
   | gt (n : Nat) | ge (n : Nat) | eq (n : Nat) | ne (n : Nat) | const (b : Bool)
   | raiseat (n : Nat) (f : Fn)
+  | or (a b : Fn)      -- `any([a, b])`: both are evaluated, either may raise
 
 def Fn.eval : Fn → Nat → Option Bool
   | .gt n, v => some (decide (v > n))
@@ -23,6 +24,10 @@ def Fn.eval : Fn → Nat → Option Bool
   | .ne n, v => some (decide (v ≠ n))
   | .const b, _ => some b
   | .raiseat n f, v => if v = n then Option.none else f.eval v
+  | .or a b, v =>
+    match a.eval v, b.eval v with
+    | some x, some y => some (x || y)
+    | _, _ => Option.none
 
 partial def fn? : Sexp → Option Fn
   | .list [.atom "gt", n] => n.nat? >>= fun k => some (.gt k)
@@ -31,6 +36,7 @@ partial def fn? : Sexp → Option Fn
   | .list [.atom "ne", n] => n.nat? >>= fun k => some (.ne k)
   | .list [.atom "const", b] => b.bool? >>= fun k => some (.const k)
   | .list [.atom "raiseat", n, f] => do pure (.raiseat (← n.nat?) (← fn? f))
+  | .list [.atom "or", a, b] => do pure (.or (← fn? a) (← fn? b))
   | _ => Option.none
 
 def optNat? : Sexp → Option (Option Nat)
